@@ -1,4 +1,5 @@
 import SciVerif.Lemmas.C10b
+import Mathlib.Tactic.Ring
 
 /-! C10: `np.argmax` model returns the first maximum. -/
 namespace SciVerif.C10
@@ -56,5 +57,14 @@ theorem argmax_spec (l : List Rat) (idx : Nat) (h : argmax l = some idx) : First
     subst h
     have := argmaxFrom_spec t [x] x 0 (by simp) (by simp) (by intro j hj; omega)
     simpa using this
+
+theorem sumR_cons (x : Rat) (l : List Rat) : sumR (x :: l) = x + sumR l := by
+  have : ∀ (l : List Rat) (a : Rat), l.foldl (· + ·) a = a + l.foldl (· + ·) 0 := by
+    intro l
+    induction l with
+    | nil => intro a; simp
+    | cons y t ih => intro a; simp only [List.foldl_cons]; rw [ih (a + y), ih (0 + y)]; ring
+  simp only [sumR, List.foldl_cons]
+  rw [this l (0 + x)]; ring
 
 end SciVerif.C10
